@@ -1,4 +1,4 @@
-import MirosModel.Hsm.FallLemmas
+import MirosModel.Hsm.FirstQueryLemmas
 import MirosModel.Gen.Constants
 /-!
 # C24 — on ANY chart the processor does what the checked UML spec says, or raises
@@ -17,6 +17,11 @@ answer `None` (and leave `temp` alone) to every signal they have no clause for: 
 never makes the processor diverge in `dispatch` / `start_at`; it raises exactly when a fall-through
 state lies on a path the step has to walk (or the chart is malformed otherwise), and a step that
 does not touch the state is, call for call, the step of the repaired chart.
+The parent queries of `init()` and of the init drill-down of `dispatch` check the status they get
+(`superGuard`, on in the generated `cfg`): the exception comes right after the one unanswered query
+(`C24_fall_raises_at_first_unanswered_query`); the behaviour of the code before that change
+(`superGuard := false`: the repeat-parent checks catch the state one or two calls later, and only
+if `drillGuard` is on in the drill-down) is kept in the `C24_witness_old_*` theorems.
 -/
 namespace Miros.Props.C24
 open Miros.Hsm
@@ -382,8 +387,9 @@ no parent -/
 example : startAt demoF Miros.Gen.cfg [3, 2, 1] = .raise [⟨[3, 2, 1], .search⟩, ⟨[2, 1], .search⟩] := by
   decide
 
-/-- `start_at` of the fall-through state itself: it is asked twice (`previous_super` starts as `None`) -/
-example : startAt demoF Miros.Gen.cfg [2, 1] = .raise [⟨[2, 1], .search⟩, ⟨[2, 1], .search⟩] := by decide
+/-- `start_at` of the fall-through state itself: it is asked once and `init()` raises (before the
+status of the parent query was checked it was asked twice: `C24_witness_old_start_asks_twice`) -/
+example : startAt demoF Miros.Gen.cfg [2, 1] = .raise [⟨[2, 1], .search⟩] := by decide
 
 /-- the chart works normally where the state is never asked: started in the other branch … -/
 example : startAt demoF Miros.Gen.cfg [4, 1] =
@@ -431,5 +437,115 @@ example : (∃ r, dispatch demoF Miros.Gen.cfg [5, 4, 1] 0 = .ok r) ∨
 example : (∃ r, startAt demoF Miros.Gen.cfg [3, 2, 1] = .ok r) ∨
     (∃ l, startAt demoF Miros.Gen.cfg [3, 2, 1] = .raise l) :=
   C24_fall_start_no_diverge demoF demoF_one.init_depth [3, 2, 1] (by decide) (Or.inl (by decide))
+
+/-! ### the unanswered parent query is the last call
+
+`FallQ c x` : the call `x` is a parent query put to a fall-through state; `NoFQ c l` : the log `l`
+contains no such call; `Outcome.calls` : the calls of an outcome, whatever its kind. -/
+
+/-- **C24 (the first unanswered parent query raises).** Under the generated switches, in `start_at`
+and in the init drill-down of `dispatch` (from any state `t`, any buffer, any fuel, after any calls
+`k.log` that contain no unanswered parent query): when the fall-through state `x` is asked for its
+parent, the outcome is `.raise`, that query is the LAST call of the log, and no earlier parent query
+went to a fall-through state — the exception comes right after the one call. -/
+theorem C24_fall_raises_at_first_unanswered_query (c : Chart) (x : St) (hne : x ≠ []) (hx : c.fall x = true) :
+    (∀ s, (⟨x, .search⟩ : Call) ∈ (startAt c Miros.Gen.cfg s).calls (fun r => r.log) →
+      ∃ l0, startAt c Miros.Gen.cfg s = .raise (l0 ++ [⟨x, .search⟩]) ∧ NoFQ c l0) ∧
+    (∀ fuel t tp mx k, NoFQ c k.log →
+      (⟨x, .search⟩ : Call) ∈ (drill c Miros.Gen.cfg fuel t tp mx k).calls (fun r => r.2.log) →
+      ∃ l0, drill c Miros.Gen.cfg fuel t tp mx k = .raise (l0 ++ [⟨x, .search⟩]) ∧ NoFQ c l0) := by
+  have hn : noSuper c x = true := by
+    cases x with
+    | nil => exact absurd rfl hne
+    | cons a p => exact hx
+  exact ⟨fun s hm => (startAt_firstQ c Miros.Gen.cfg (by decide) s).elim hn hm,
+    fun fuel t tp mx k hk hm => (drill_firstQ c Miros.Gen.cfg (by decide) fuel t tp mx k hk).elim hn hm⟩
+
+/-- the same for the whole of `dispatch` (search, exit walk, `trans_`, entries, drill-down): the
+other loops never ignored a `None` answer to a parent query -/
+theorem C24_fall_raises_at_first_unanswered_query_dispatch (c : Chart) (x : St) (hne : x ≠ [])
+    (hx : c.fall x = true) (cur : St) (n : Nat)
+    (hm : (⟨x, .search⟩ : Call) ∈ (dispatch c Miros.Gen.cfg cur n).calls (fun r => r.log)) :
+    ∃ l0, dispatch c Miros.Gen.cfg cur n = .raise (l0 ++ [⟨x, .search⟩]) ∧ NoFQ c l0 := by
+  have hn : noSuper c x = true := by
+    cases x with
+    | nil => exact absurd rfl hne
+    | cons a p => exact hx
+  exact (dispatch_firstQ c Miros.Gen.cfg (by decide) cur n).elim hn hm
+
+/-- `[1] ⊃ [2,1]` and `[1] ⊃ [4,1] ⊃ [5,4,1] ⊃ [6,5,4,1]`; the handlers of `[2,1]` and `[5,4,1]` have
+no final `else`; `[1]` takes its initial transition to the fall-through state `[2,1]` itself, `[4,1]`
+to `[6,5,4,1]`, below the fall-through state `[5,4,1]`; both have a self-transition on event 0 -/
+def demoD : Chart where
+  react := fun s n =>
+    if s = [1] ∧ n = 0 then .tran [1]
+    else if s = [4, 1] ∧ n = 0 then .tran [4, 1]
+    else .pass
+  init := fun s =>
+    if s = [1] then some [2, 1]
+    else if s = [4, 1] then some [6, 5, 4, 1]
+    else none
+  exitH := fun _ => true
+  depth := 4
+  fall := fun s => s == [2, 1] || s == [5, 4, 1]
+
+/-- the drill-down, first query (on the init target itself): one call, then the raise -/
+example : dispatch demoD Miros.Gen.cfg [1] 0 =
+    .raise [⟨[1], .user 0⟩, ⟨[1], .exit⟩, ⟨[1], .entry⟩, ⟨[1], .init⟩, ⟨[2, 1], .search⟩] := by decide
+
+/-- the drill-down, the query at the end of the climb from the init target: `[6,5,4,1]` names its
+parent, `[5,4,1]` does not -/
+example : dispatch demoD Miros.Gen.cfg [4, 1] 0 =
+    .raise [⟨[4, 1], .user 0⟩, ⟨[4, 1], .exit⟩, ⟨[4, 1], .entry⟩, ⟨[4, 1], .init⟩,
+      ⟨[6, 5, 4, 1], .search⟩, ⟨[5, 4, 1], .search⟩] := by decide
+
+/-- `init()`: reached from above (`idx > 0`) or started at (`idx = 0`), one call -/
+example : startAt demoD Miros.Gen.cfg [6, 5, 4, 1] = .raise [⟨[6, 5, 4, 1], .search⟩, ⟨[5, 4, 1], .search⟩] := by
+  decide
+example : startAt demoD Miros.Gen.cfg [1] =
+    .raise [⟨[1], .search⟩, ⟨[1], .entry⟩, ⟨[1], .init⟩, ⟨[2, 1], .search⟩] := by decide
+
+/-- the hypotheses of `C24_fall_raises_at_first_unanswered_query` are met: `start_at` … -/
+example : ∃ l0, startAt demoD Miros.Gen.cfg [1] = .raise (l0 ++ [⟨[2, 1], .search⟩]) ∧ NoFQ demoD l0 :=
+  (C24_fall_raises_at_first_unanswered_query demoD [2, 1] (by decide) (by decide)).1 [1] (by decide)
+
+/-- … the drill-down entered as `dispatch` enters it after the self-transition of `[4,1]` … -/
+example : ∃ l0, drill demoD Miros.Gen.cfg 5 [4, 1] [[4, 1], [4, 1], [4, 1]] 2
+      { temp := [4, 1], log := [⟨[4, 1], .user 0⟩, ⟨[4, 1], .exit⟩, ⟨[4, 1], .entry⟩] } =
+    .raise (l0 ++ [⟨[5, 4, 1], .search⟩]) ∧ NoFQ demoD l0 :=
+  (C24_fall_raises_at_first_unanswered_query demoD [5, 4, 1] (by decide) (by decide)).2 5 [4, 1] _ 2 _
+    (by intro y hy; simp only [List.mem_cons, List.not_mem_nil, or_false] at hy
+        rcases hy with rfl | rfl | rfl <;> exact fun h => by cases h.1)
+    (by decide)
+
+/-- … and the whole `dispatch` -/
+example : ∃ l0, dispatch demoD Miros.Gen.cfg [1] 0 = .raise (l0 ++ [⟨[2, 1], .search⟩]) ∧ NoFQ demoD l0 :=
+  C24_fall_raises_at_first_unanswered_query_dispatch demoD [2, 1] (by decide) (by decide) [1] 0 (by decide)
+
+/-! ### the code before the parent queries were checked (`superGuard := false`) -/
+
+/-- the switches of the source before the change: everything on but `superGuard` -/
+def gOld : Cfg := { resync := true, drillGuard := true, initGuard := true, superGuard := false }
+
+/-- … and without the repeat-parent check of the drill-down as well -/
+def gOlder : Cfg := { resync := true, drillGuard := false, initGuard := true, superGuard := false }
+
+/-- **Witness (old `init()`).** `start_at` of a fall-through state: the `None` answer was ignored,
+`temp` stayed on the state, and the repeat-parent check caught it only after it had been asked a
+second time (`previous_super` starts as `None`) -/
+theorem C24_witness_old_start_asks_twice :
+    startAt demoD gOld [2, 1] = .raise [⟨[2, 1], .search⟩, ⟨[2, 1], .search⟩] ∧
+    startAt demoD Miros.Gen.cfg [2, 1] = .raise [⟨[2, 1], .search⟩] := by decide
+
+/-- **Witness (old drill-down).** The init target is a fall-through state: with the repeat-parent
+check (`drillGuard`) it was asked twice before the raise; without that check the loop never ended.
+With `superGuard` the raise needs no `drillGuard`. -/
+theorem C24_witness_old_drill :
+    dispatch demoD gOld [1] 0 =
+      .raise [⟨[1], .user 0⟩, ⟨[1], .exit⟩, ⟨[1], .entry⟩, ⟨[1], .init⟩, ⟨[2, 1], .search⟩, ⟨[2, 1], .search⟩] ∧
+    isDiverge (dispatch demoD gOlder [1] 0) = true ∧
+    isDiverge (dispatch demoD gOlder [4, 1] 0) = true ∧
+    dispatch demoD { gOlder with superGuard := true } [1] 0 =
+      .raise [⟨[1], .user 0⟩, ⟨[1], .exit⟩, ⟨[1], .entry⟩, ⟨[1], .init⟩, ⟨[2, 1], .search⟩] := by decide
 
 end Miros.Props.C24
